@@ -28,6 +28,10 @@ func main() {
 	switch cmd {
 	case "core-replay":
 		coreReplay(args)
+	case "events-replay":
+		eventsReplay(args)
+	case "events-stress":
+		eventsStress(args)
 	case "hb-replay":
 		hbReplay(args)
 	case "approval-replay":
